@@ -184,6 +184,12 @@ def run(ck):
                         u = ctor[0][5].get("unitary_dict")
                         okud = isinstance(u, VUnknown) and "unitary_dict" in u.tag and u.origin == "load"
                     ck.check(okud, "C11.R3", cls + ".autoload:unitary_dict passed", asite, "autoload does not hand the stored unitary dictionary to the constructor")
+                # nothing may touch the parameters after they were loaded
+                idx = [i for i, e in enumerate(p.effects) if e.kind == "params" and e.detail == "load_state_dict"]
+                after = [e for e in p.effects[(max(idx) + 1 if idx else 0):] if e.kind in ("write", "params", "rebind-param", "meta") and
+                         (any(o.startswith("attr:rbm") or o.startswith("load") for o in e.origins) or getattr(getattr(e, "obj", None), "is_parameter", False))]
+                ck.check(bool(idx) and not after, "C11.R3", cls + ".autoload:loaded parameters left untouched/" + _c(p), after[0].site if after else asite,
+                         "autoload changes a parameter after loading it (%s): the reconstructed model is not bit-identical to the saved one" % (after[0].detail if after else "no load_state_dict seen"))
                 lc = [c for c in p.calls if c[0].endswith(".load") and c[0].split(".")[0] in ("NeuralStateBase", cls)]
                 ck.check(len(lc) == 1 and lc[0][5].get("location") is loc, "C11.R3", cls + ".autoload:loads parameters/" + _c(p), asite,
                          "autoload does not call load(location) on the new model")
